@@ -126,6 +126,7 @@ def dibs() -> list[Any]:
         DIBTunnelingInfo(),
         dib_generic(DIBTypeCode.MFR_DATA, b"\x00\xc5\x01\x02"),
         dib_generic(DIBTypeCode.IP_CONFIG, b"\x01\x02\x03\x04\x05\x06"),
+        dib_generic(0x05, b"\x0a\x0b"),   # the type code given as a number (the field is typed DIBTypeCode | int): IP_CUR_CONFIG  # type: ignore[arg-type]
     ]
 
 
